@@ -228,7 +228,7 @@ def run_shards(cmds, envs, outs, watchdog_s, label):
             except Exception:
                 prog = None
         try:
-            logtxt = open(out + ".log", errors="replace").read()[-6000:]
+            logtxt = read_log(out + ".log")
         except Exception:
             logtxt = ""
         results.append(dict(report=rep, rc=p.returncode, progress=prog, log=logtxt, timed_out=timed_out, out=out))
@@ -438,7 +438,7 @@ def run_shards_cwd(cmds, envs, outs, watchdog_s, cwd):
         prog = None
         if os.path.exists(out + ".progress"):
             prog = open(out + ".progress").read().strip()
-        logtxt = open(out + ".log", errors="replace").read()[-8000:]
+        logtxt = read_log(out + ".log")
         results.append(dict(report=rep, rc=p.returncode, progress=prog, log=logtxt, timed_out=timed_out, out=out))
     return results
 
@@ -453,6 +453,25 @@ SAN_PATTERNS = [
     (re.compile(r"error: (deadlock|the evaluated program deadlocked)"), "miri-deadlock"),
     (re.compile(r"error: abnormal termination: (.*)"), "miri-abort"),
 ]
+
+
+def read_log(path, cap=4_000_000):
+    try:
+        with open(path, errors="replace") as f:
+            t = f.read(cap)
+        return t
+    except Exception:
+        return ""
+
+
+def excerpt(logtxt, n=1800):
+    """the part of a log around the first sanitizer/Miri error, else its tail"""
+    for pat, _ in SAN_PATTERNS:
+        m = pat.search(logtxt)
+        if m:
+            a = max(0, m.start() - 200)
+            return logtxt[a:a + n]
+    return logtxt[-n:]
 
 
 def classify_log(logtxt):
@@ -525,14 +544,14 @@ def conclude(prop, tier, seed, root, stages, t_start, evid_path):
                     desc = "%s: %s" % (kind, what) if kind else "process died (exit status %s)" % r["rc"]
                     viol.append(dict(prop=prop, key="process:" + (kind or "died"), msg="%s stage: %s while executing: %s" % (name, desc, (r["progress"] or "?")[:300]),
                                      idx=progress_idx(r["progress"]), seed=shard_seed(name, seed), tier=tier, small=small, case=(r["progress"] or "?")[:300], mode="?", picks="", stage=name,
-                                     log_tail=r["log"][-1500:]))
+                                     log_tail=excerpt(r["log"])))
                 else:
                     broken.append("%s shard produced no report (rc=%s): %s" % (name, r["rc"], r["log"][-300:]))
             elif kind is not None:
                 # a report exists but the sanitizer complained at exit (e.g. leak report)
                 sc["sanitizer_reports"] += 1
                 viol.append(dict(prop=prop, key="process:" + kind, msg="%s stage: %s: %s" % (name, kind, what), idx=0, seed=shard_seed(name, seed), tier=tier, small=small,
-                                 case="(at process exit)", mode="?", picks="", stage=name, log_tail=r["log"][-1500:]))
+                                 case="(at process exit)", mode="?", picks="", stage=name, log_tail=excerpt(r["log"])))
         cov["stages"][name] = sc
 
     # known findings
